@@ -13,7 +13,7 @@ def PC.woken : PC → Bool
 /-- nsync_mu_wait after a timeout / cancellation has been recorded: the thread spins (mu_wait.c:240-258,
     mu_try_acquire_after_timeout_or_cancel) until it is woken or has taken the mutex itself. -/
 def PC.timedOut : PC → Bool
-  | .mwLd244 _ | .mtLd _ | .mtCasAcq _ _ | .mtCasWW _ _ => true
+  | .mwLd244 _ | .mtLd _ | .mtCasAcq _ _ | .mtCasWW _ _ | .mtLdWk _ _ => true
   | .mwLd255 c | .mwWaitLd c => decide (c.so ≠ .ok) && !c.hl
   | _ => false
 
